@@ -262,11 +262,40 @@ class Interp:
         fi = self.p.function(qualname)
         return self.call_function(fi, [], dict(args), None)
 
+    def _exec_node(self, fi: FunctionInfo):
+        """the definition that is executed: the function's own, except when it loops over a private generator helper of the
+        repository — generators are not executed by this evaluator, so the helper-inlined view (core/inline.py turns
+        `for t in _gen(...): body` into the generator's loop nest) is executed instead"""
+        cache = self.__dict__.setdefault("_exec_cache", {})
+        key = fi.qualname
+        if key in cache:
+            return cache[key]
+        nd = fi.node
+        uses_gen = False
+        if isinstance(nd, (ast.FunctionDef, ast.AsyncFunctionDef)) and fi.qualname in self.p.functions:
+            locs = None
+            for n in ast.walk(nd):
+                if isinstance(n, ast.For) and isinstance(n.iter, ast.Call) and isinstance(n.iter.func, (ast.Name, ast.Attribute)):
+                    if locs is None:
+                        locs = {x.id for x in ast.walk(nd) if isinstance(x, ast.Name) and isinstance(x.ctx, ast.Store)}
+                    t = self.p.resolve(fi.module, n.iter.func, locs)
+                    g = self.p.functions.get(t) if t else None
+                    if g is not None and any(isinstance(y, (ast.Yield, ast.YieldFrom)) for y in ast.walk(g.node)):
+                        uses_gen = True
+        if uses_gen:
+            from .inline import inlined
+            try:
+                nd = inlined(self.p, fi)
+            except Exception:
+                nd = fi.node
+        cache[key] = nd
+        return nd
+
     def call_function(self, fi: FunctionInfo, pos: List[Val], kwargs: Dict[str, Val], node, closure_env=None) -> Val:
         depth = len(self.frames)
         if depth >= self.cfg.max_depth:
             return self.unknown("inlining-depth", node)
-        fnode = fi.node
+        fnode = self._exec_node(fi)
         env: Dict[str, Val] = {}
         a = fnode.args
         params = [x.arg for x in a.posonlyargs + a.args]
@@ -687,12 +716,24 @@ class Interp:
                 return rng(sym.Opq("len", ())), fresh(), lambda: self.unknown("zip-mixed", node)
             # sequences over a row space and over a mask-selected part of it are not aligned row by row: position k of
             # the selected rows is not row k
-            def _masked(sp_):
-                k_ = sp_.key
-                return isinstance(k_, tuple) and len(k_) == 3 and k_[0] == "sub"
-            if any(_masked(x[0]) for x in syms_) and not all(x[0].key == syms_[0][0].key for x in syms_):
-                self.event("zip-misaligned", node, spaces=[x[0].key for x in syms_])
-                self.lose("zip of a sequence with a row selection of another: paired by position, not by row", node)
+            def _masks(sp_):
+                """(base key, [masks with index variables renamed to one name]) of a possibly mask-selected space"""
+                k_, ms = sp_.key, []
+                while isinstance(k_, tuple) and len(k_) == 3 and k_[0] == "sub":
+                    m_ = k_[2]
+                    if isinstance(m_, tuple) and m_ and isinstance(m_[0], str):
+                        for iv_ in sorted(sym.free_ivars(m_)):
+                            m_ = sym.subst_ivar(m_, iv_, ("$r", 0))
+                    ms.append(m_)
+                    k_ = k_[1]
+                return k_, ms
+            infos = [_masks(x[0]) for x in syms_]
+            if any(ms for _, ms in infos) and not all(ms == infos[0][1] for _, ms in infos):
+                one_sided = any(not ms for _, ms in infos)
+                if one_sided or len({len(ms) for _, ms in infos}) > 1:
+                    # a definite misalignment: one sequence went through a row selection the other did not go through
+                    self.event("zip-misaligned", node, spaces=[x[0].key for x in syms_])
+                self.lose("zip of sequences that went through different row selections: paired by position, not by row", node)
                 u = self.unknown("zip-misaligned", node)
                 return rng(sym.Opq("len", ())), fresh("b"), lambda: u
             # common length = the smallest size (sizes differ by constants in the repo: zip(l, l[1:]))
